@@ -3,6 +3,7 @@ import Driver.Gated
 import Driver.Dispatch
 import Driver.FileSink
 import Driver.Sinks
+import Driver.Json
 open Driver
 
 def main (args : List String) : IO UInt32 := do
@@ -14,4 +15,5 @@ def main (args : List String) : IO UInt32 := do
   | ["dispatch"] => loop stdin stdout Driver.Dispatch.stepLine {}; return 0
   | ["filesink"] => loop stdin stdout Driver.FileSink.stepLine {}; return 0
   | ["sinks"] => loop stdin stdout Driver.Sinks.stepLine []; return 0
+  | ["json"] => loop stdin stdout Driver.Json.stepLine (); return 0
   | _ => IO.eprintln "usage: evldriver <model>"; return 2
